@@ -547,7 +547,11 @@ func c06WKT(c *Ctx) {
 }
 
 // c06CodecPrecedence: R06f.
-func c06CodecPrecedence(c *Ctx) {
+func c06CodecPrecedence(c *Ctx) { codecPrecedence(c, "R06f", true) }
+
+// codecPrecedence checks that every JSON arm of the body codecs consults the
+// message's own codec before protojson (server runtime; optionally the Go client).
+func codecPrecedence(c *Ctx, rule string, withClient bool) {
 	r := c.R
 	check := func(where, fname string, fd *ast.FuncDecl, pos func(ast.Node) string) {
 		// every protojson.Marshal/Unmarshal call must be in a statement list that has, earlier,
@@ -624,30 +628,33 @@ func c06CodecPrecedence(c *Ctx) {
 					break
 				}
 			}
-			r.Check(guarded, "R06f", fmt.Sprintf("%s %s arm %s: %s is preceded by the %s test", where, fname, arm, f, iface), pos(call),
+			r.Check(guarded, rule, fmt.Sprintf("%s %s arm %s: %s is preceded by the %s test", where, fname, arm, f, iface), pos(call),
 				fmt.Sprintf("%s %s, arm %s: %s is applied without first consulting the message's own %s: an annotated message travels in plain protojson form under that content type, which neither its peer's codec nor its schema describes", where, fname, arm, f, iface))
 			return true
 		})
-		r.Check(n > 0, "R06f", where+" "+fname+" has JSON arms", pos(fd), "no protojson call found in "+fname)
+		r.Check(n > 0, rule, where+" "+fname+" has JSON arms", pos(fd), "no protojson call found in "+fname)
 	}
 	// server runtime (typed reconstruction)
 	ep, err := c.ServerRuntime()
 	if err != nil {
-		r.Unres("R06f", "server runtime", "", err.Error())
+		r.Unres(rule, "server runtime", "", err.Error())
 	} else {
 		for _, name := range []string{"marshalResponse", "bindDataFromJSONRequest"} {
 			fd := ep.Funcs[name]
 			if fd == nil {
-				r.Unres("R06f", "server "+name, "", "function not found in the reconstructed runtime")
+				r.Unres(rule, "server "+name, "", "function not found in the reconstructed runtime")
 				continue
 			}
 			check("go-http", name, fd, func(n ast.Node) string { return ep.GenPos(n.Pos()) })
 		}
 	}
+	if !withClient {
+		return
+	}
 	// client: every variant of the client unit
 	ri := c.Root(pkgClient, "_client.pb.go")
 	if ri == nil {
-		r.Unres("R06f", "client unit", "", "not found")
+		r.Unres(rule, "client unit", "", "not found")
 		return
 	}
 	ex := c.Explore(ri.Fn, 1, 6000)
@@ -674,7 +681,7 @@ func c06CodecPrecedence(c *Ctx) {
 			}
 		}
 	}
-	r.Check(done["marshalRequest"] && done["unmarshalResponse"], "R06f", "client codecs found", c.P.Pos(c.P.Decls[ri.Fn].Pos()), "marshalRequest / unmarshalResponse not found in any client variant")
+	r.Check(done["marshalRequest"] && done["unmarshalResponse"], rule, "client codecs found", c.P.Pos(c.P.Decls[ri.Fn].Pos()), "marshalRequest / unmarshalResponse not found in any client variant")
 }
 
 func c06Responses(c *Ctx) {
